@@ -353,11 +353,19 @@ KEY_POOLS = {
              "6ba7b810-9dad-11d1-80b4-00c04fd430c9", "7ba7b810-9dad-11d1-80b4-00c04fd430c8", "00000000-0000-0000-0000-000000000001"],
     "bool": [True, False],
     "enum": ["SHA_256", "HTTP_1_1", "A", "X9", "V1_0"],
+    # objects ordered through the double-aware comparison of their list field: prefixes of each other, same length, absent / present optional
+    "objl": [{"l": []}, {"l": [1.5]}, {"l": [1.5, 2.5]}, {"l": [1.5, 2.5, 0.5]}, {"l": [2.5]}, {"l": [2.5, 1.5]}, {"l": [1.5], "o": 1.0}, {"l": ["NaN"]},
+             {"l": ["NaN", 1.5]}, {"l": ["-Infinity"]}, {"l": [], "o": "NaN"}, {"l": [], "o": -1.0}],
 }
 KEY_FIELDS = {"mr": ("map", "rid", "int"), "mt": ("map", "tok", "int"), "md": ("map", "time", "int"), "ml": ("map", "long", "int"), "mb": ("map", "bin", "int"),
               "ma": ("map", "str", "int"), "mai": ("map", "int", "str"), "mal": ("map", "long", "str"), "sr": ("set", "rid"), "sl": ("set", "long"),
               "su": ("set", "uuid"), "st": ("set", "time"), "sk": ("set", "tok"), "sb": ("set", "bin"), "sa": ("set", "int"), "sbool": ("set", "bool"),
-              "se": ("set", "enum"), "sar": ("set", "rid")}
+              "se": ("set", "enum"), "sar": ("set", "rid"), "sobj": ("set", "objl"), "mobj": ("map", "str", "objl")}
+
+
+def norm_objl(v):
+    """DoubleSeq objects as values: an absent optional may be written as null, an empty list may be omitted (both by configuration)"""
+    return json.dumps({"l": v.get("l") or [], "o": v.get("o")}, sort_keys=True) if isinstance(v, dict) else json.dumps(v)
 
 
 def key_zoo_stage(out, rng):
@@ -400,7 +408,9 @@ def key_zoo_stage(out, rng):
                 want = doc.get(f, [] if spec[0] == "set" else {})
                 g = got.get(f, [] if spec[0] == "set" else {})
                 if spec[0] == "set":
-                    same = sorted(json.dumps(x) for x in g) == sorted(json.dumps(x) for x in want)
+                    same = sorted(norm_objl(x) for x in g) == sorted(norm_objl(x) for x in want)
+                elif spec[2] == "objl":
+                    same = {k2: norm_objl(v) for k2, v in g.items()} == {k2: norm_objl(v) for k2, v in want.items()}
                 else:
                     same = g == want
                 if not same:
